@@ -211,7 +211,11 @@ SPECS = [get_arg_ctx]
 import ast as _ast
 from pyvc.sv import TUnion
 
-NODE = TUnion("AstNode", [("n_const", TPV, (_ast.Constant,)), ("n_other", None, (_ast.AST,))])
+# an argument expression: a literal, a unary operator applied to an expression (itself a literal or not), anything else
+UOP = TUnion("AstUnaryOperator", [("u_sub", None, (_ast.USub,)), ("u_add", None, (_ast.UAdd,)), ("u_invert", None, (_ast.Invert,)), ("u_not", None, (_ast.Not,))])
+OPERAND = TUnion("AstOperand", [("o_const", TPV, (_ast.Constant,)), ("o_other", None, (_ast.AST,))])
+UNARY = TRec("AstUnary", op=UOP, operand=OPERAND)
+NODE = TUnion("AstNode", [("n_const", TPV, (_ast.Constant,)), ("n_unary", UNARY, (_ast.UnaryOp,)), ("n_other", None, (_ast.AST,))])
 
 
 def node_hash(nt):
@@ -251,6 +255,12 @@ class get_arg_ctx_ast(_CtxSpec):
         if o.ty == NODE and attr == "value":
             eng.oblige("value_of_constant_node", NODE.is_tag(o.term, "n_const"), kind="safety:AttributeError", node=node)
             return NODE.payload(o.term, "n_const")
+        if o.ty == NODE and attr in ("op", "operand"):
+            eng.oblige("%s_of_unary_node" % attr, NODE.is_tag(o.term, "n_unary"), kind="safety:AttributeError", node=node)
+            return UNARY.get(NODE.payload(o.term, "n_unary").term, attr)
+        if o.ty == OPERAND and attr == "value":
+            eng.oblige("value_of_constant_operand", OPERAND.is_tag(o.term, "o_const"), kind="safety:AttributeError", node=node)
+            return OPERAND.payload(o.term, "o_const")
         return super().sym_getattr(eng, o, attr, node)
 
     def inv(self, ctx, env, k):
